@@ -1481,6 +1481,9 @@ class Interp:
         if isinstance(container, (set, frozenset)):
             if hasattr(item, "py_eq"):
                 return mkbool(bor(*[bterm(item.py_eq(self, x)) for x in container]))
+            if isinstance(item, SInt):
+                # a symbolic integer in a set of concrete elements: equal to one of them (False for the empty set)
+                return mkbool(bor(*[bterm(self.equal(x, item)) for x in container if isinstance(x, (int, SInt)) and not isinstance(x, bool)]))
             return self.concrete_key(item) in container
         if isinstance(container, (list, tuple)):
             return mkbool(bor(*[bterm(self.equal(x, item)) for x in container]))
